@@ -17,6 +17,7 @@ import (
 	"errors"
 	"fmt"
 	"io"
+	"io/fs"
 	"math/rand"
 	netmail "net/mail"
 	"os"
@@ -514,6 +515,18 @@ func (b *Built) Close() {
 
 const fixedBoundary = "b0undary-of-verif"
 
+// boundaryOf: the boundary a program asks for: "" none, "fixed", or "lenN" - a boundary of N characters.
+func boundaryOf(cls string) string {
+	if cls == "fixed" {
+		return fixedBoundary
+	}
+	n := 0
+	if _, err := fmt.Sscanf(cls, "len%d", &n); err == nil && n > 0 {
+		return (fixedBoundary + "-" + strings.Repeat("0123456789", 8))[:n]
+	}
+	return ""
+}
+
 // Build interprets a builder program. failSlot > 0 makes the producer of that slot fail
 // (before / after emitting data).
 func Build(p Prog, seed int64, failSlot int, failWhen string, tmpdir string) (*Built, error) {
@@ -524,8 +537,8 @@ func Build(p Prog, seed int64, failSlot int, failWhen string, tmpdir string) (*B
 		if e, ok := encNames[p.Enc]; ok {
 			opts = append(opts, mail.WithEncoding(e))
 		}
-		if p.Boundary == "fixed" {
-			opts = append(opts, mail.WithBoundary(fixedBoundary))
+		if bd := boundaryOf(p.Boundary); bd != "" {
+			opts = append(opts, mail.WithBoundary(bd))
 		}
 	} else {
 		opts = append(opts, mail.WithCharset(mail.CharsetUTF8), mail.WithMIMEVersion(mail.MIME10))
@@ -542,8 +555,8 @@ func Build(p Prog, seed int64, failSlot int, failWhen string, tmpdir string) (*B
 		if e, ok := encNames[p.Enc]; ok {
 			m.SetEncoding(e)
 		}
-		if p.Boundary == "fixed" {
-			m.SetBoundary(fixedBoundary)
+		if bd := boundaryOf(p.Boundary); bd != "" {
+			m.SetBoundary(bd)
 		}
 		m.SetCharset(mail.CharsetUTF8)
 		m.SetMIMEVersion(mail.MIME10)
@@ -826,9 +839,44 @@ func Build(p Prog, seed int64, failSlot int, failWhen string, tmpdir string) (*B
 		src := fs.Src
 		if fail {
 			src = "failseeker"
+			// sources with a failure of their own kind: a file of an fs.FS that cannot be opened (or read to the end) any
+			// more when the message is rendered, a file on disk that was removed after it was attached
+			if (fs.Src == "iofs" || fs.Src == "file") && (failWhen == "before" || failWhen == "after") {
+				src = fs.Src + "-gone"
+			}
 		}
 		var err error
 		switch {
+		case src == "iofs-gone":
+			fsys := &flakyFS{inner: fstest.MapFS{"dir/src.bin": &fstest.MapFile{Data: content}}, half: failWhen == "after"}
+			fo = append(fo, mail.WithFileName(name))
+			if embed {
+				err = m.EmbedFromIOFS("dir/src.bin", fsys, fo...)
+			} else {
+				err = m.AttachFromIOFS("dir/src.bin", fsys, fo...)
+			}
+			fsys.on = true
+		case src == "file-gone":
+			tf, terr := os.CreateTemp(tmpdir, "src-*.bin")
+			if terr != nil {
+				return terr
+			}
+			path := tf.Name()
+			_, _ = tf.Write(content)
+			_ = tf.Close()
+			fo = append(fo, mail.WithFileName(name))
+			if embed {
+				m.EmbedFile(path, fo...)
+			} else {
+				m.AttachFile(path, fo...)
+			}
+			if failWhen == "after" { // still there, but no longer a regular file that can be read
+				_ = os.Remove(path)
+				_ = os.Mkdir(path, 0o700)
+				b.cleanup = append(b.cleanup, func() { _ = os.Remove(path) })
+			} else {
+				_ = os.Remove(path)
+			}
 		case src == "failseeker":
 			data := content
 			if failWhen == "before" {
@@ -1022,6 +1070,43 @@ func (v verifMiddleware) Handle(m *mail.Msg) *mail.Msg {
 		}
 	}
 	return m
+}
+
+// flakyFS is an fs.FS whose files can be opened while the message is built and not (or only to the middle) once it is
+// switched on.
+type flakyFS struct {
+	inner fs.FS
+	on    bool
+	half  bool
+}
+
+func (f *flakyFS) Open(name string) (fs.File, error) {
+	if f.on && !f.half {
+		return nil, &fs.PathError{Op: "open", Path: name, Err: fs.ErrNotExist}
+	}
+	file, err := f.inner.Open(name)
+	if err != nil || !f.on {
+		return file, err
+	}
+	st, _ := file.Stat()
+	return &halfFile{File: file, left: st.Size() / 2}, nil
+}
+
+type halfFile struct {
+	fs.File
+	left int64
+}
+
+func (h *halfFile) Read(p []byte) (int, error) {
+	if h.left <= 0 {
+		return 0, errors.New("scripted read failure of an fs.FS file")
+	}
+	if int64(len(p)) > h.left {
+		p = p[:h.left]
+	}
+	n, err := h.File.Read(p)
+	h.left -= int64(n)
+	return n, err
 }
 
 // hdrMiddleware sets one generic header field (idempotent); two of them with different types make the pair whose first
